@@ -42,6 +42,8 @@ def programs(rng, n, props=("C06",)):
         else:
             g = proggen.Gen(rng, curve, max_depth=rng.choice([1, 2, 3]), size=rng.choice([3, 5, 8]))
             progs.append((curve, g.program(), "random"))
+    curve = rng.choice(CURVES)
+    progs += [(curve, q, "targeted/feature-stratum") for q in proggen.feature_stratum(rng, curve)]
     return progs
 
 
@@ -100,6 +102,21 @@ def dvalidate_all(M, progs, impl, budgets):
     return {k: o for k, o in zip(keys, outs)}
 
 
+def deggraph_all(M, progs, impl, budgets):
+    """DegGraph.graph_consistent / idom_is_dominator_table (hypotheses of the table-free degree theorems) on the real
+    graph and the real immediate-dominator table: once per program (neither depends on the budget)."""
+    lines, keys = [], []
+    for i, (curve, src, _) in enumerate(progs):
+        for kv, kd in budgets[:1]:
+            o = impl[(i, kv, kd)]
+            if o.startswith("(ok "):
+                x = sexp.parse(o)
+                lines.append("deggraph %s %s" % (sexp.show(sexp.strip_knowledge(x[2])), sexp.show(x[3])))
+                keys.append(i)
+    outs = common.run_lines(M, [], lines, shards=common.NPROC, timeout=1200) if lines else []
+    return {k: o for k, o in zip(keys, outs)}
+
+
 def constcond_all(M, progs, impl, budgets):
     """Model.ConstCond.cc_findings (the mirror of the constant-conditional pass) on the implementation's real annotated graph."""
     lines, keys = [], []
@@ -112,6 +129,79 @@ def constcond_all(M, progs, impl, budgets):
                 keys.append((i, kv, kd))
     outs = common.run_lines(M, [], lines, shards=common.NPROC, timeout=1200) if lines else []
     return {k: o for k, o in zip(keys, outs)}
+
+
+FEATURES = {
+    "component_declaration": "a declaration of a component (`component c = X(..)`)",
+    "component_array": "a component array (`component c[2]`)",
+    "port_write": "a write to a port of a component (`c.in <== e`)",
+    "port_read": "a read of a port of a component (`c.out`)",
+    "port_read_indexed": "a read of an element of an array port or of a port of a component array element (`c.out[i]`, `c[i].out`)",
+    "port_read_at_nonliteral_index": "an array port read at an index that is not a literal (`c.out[sel]`)",
+    "dimension_reads_variable": "a declaration whose dimension reads a variable (`var t[n]`, `signal s[n + 1]`)",
+    "dimension_reads_versioned_local": "a dimension that reads a local variable (which SSA conversion must give a version)",
+    "signal_declared_under_control_flow": "a signal declared in a block other than the entry block (under a branch or in a loop)",
+    "dimension_with_value_claim_on_a_non_literal": "a dimension expression (not a literal) that carries a constant-value claim",
+}
+
+
+def _walk(x, f):
+    if isinstance(x, list):
+        f(x)
+        for y in x:
+            _walk(y, f)
+
+
+def features_of(pre, acc, ssa=None):
+    """Counts, on the implementation's dump of one lifted definition, the program features named in the `rule` text
+    (one count per definition that has the feature)."""
+    seen = set()
+    for b in pre[4][1:]:
+        for st in b[3]:
+            if st[0] == "decl":
+                if st[3] in ("component", "anoncomponent"):
+                    seen.add("component_declaration")
+                    if st[4]:
+                        seen.add("component_array")
+                if st[3] in ("sigin", "sigout", "sigint") and int(b[1]) > 0:
+                    seen.add("signal_declared_under_control_flow")
+
+                def dimvar(y):
+                    if y and y[0] == "var":
+                        seen.add("dimension_reads_variable")
+                        if _is_local(pre, y[1]):
+                            seen.add("dimension_reads_versioned_local")
+                for d in st[4]:
+                    _walk(d, dimvar)
+
+            def node(y):
+                if y and y[0] == "update" and any(isinstance(a, list) and a and a[0] == "comp" for a in y[2]):
+                    seen.add("port_write")
+                if y and y[0] == "access" and any(isinstance(a, list) and a and a[0] == "comp" for a in y[2]):
+                    seen.add("port_read")
+                    if any(a[0] == "idx" for a in y[2]):
+                        seen.add("port_read_indexed")
+                        if any(a[0] == "idx" and a[1][0] != "num" for a in y[2]):
+                            seen.add("port_read_at_nonliteral_index")
+            _walk(st, node)
+    if ssa is not None:
+        for b in ssa[4][1:]:
+            for st in b[3]:
+                if st[0] == "decl":
+                    def claimed(y):
+                        if y and y[0] in ("var", "infix", "prefix", "switch") and isinstance(y[-1], list) and y[-1][0] == "k" and y[-1][1] != "-":
+                            seen.add("dimension_with_value_claim_on_a_non_literal")
+                    for d in st[4]:
+                        _walk(d, claimed)
+    for f in seen:
+        acc[f] = acc.get(f, 0) + 1
+
+
+def _is_local(pre, v):
+    for d in pre[3][1:]:
+        if d[0][1] == v[1] and d[0][2] == v[2]:
+            return d[1] == "local"
+    return any(q[1] == v[1] for q in pre[2][1:])      # a parameter is a local
 
 
 def count_claims(x, acc):
@@ -156,6 +246,7 @@ def indeterminates(pre, sigs, params):
 
 
 AUDIT = {"arrivals": 0, "decided": 0, "bad": []}
+DEGSTATS = {}        # what the finite-difference oracle saw (lines, signal-dependent trip counts, what it judged / discarded)
 
 
 def oracle_case(ctx, orng, x, src, curve, kv, kd, check_vals, check_degs):
@@ -189,7 +280,7 @@ def oracle_case(ctx, orng, x, src, curve, kv, kd, check_vals, check_degs):
                 else:
                     base = orng.choice(vals)
                     direction = {nm: orng.randrange(1, p) for nm in ind}
-                bad, ex, diverged = irsem.check_degrees(x[1], x[2], p, base, direction, ind, idoms=idoms, audit=audit)
+                bad, ex, diverged = irsem.check_degrees(x[1], x[2], p, base, direction, ind, idoms=idoms, audit=audit, stats=DEGSTATS)
                 exercised_d += ex
                 for (k, cd, vs) in bad[:1]:
                     cls = irsem.node_class(x[2], k[0])
@@ -268,16 +359,23 @@ def run(ctx, proofs, budgets, check_vals=True, check_degs=True, n_quick=500, n_t
         unjustified += [{"input": progs[i][1], "curve": progs[i][0], "budget": [kv, kd], "validator": "DegJustify.djust_cfg", "answer": o}
                         for (i, kv, kd), o in dvalid.items() if o != "(justified)"]
     ccmodel = constcond_all(M, progs, impl, budgets) if check_vals else {}
+    dgraph = deggraph_all(M, progs, impl, budgets) if check_degs else {}
+    dgraph_bad = [{"input": progs[i][1], "curve": progs[i][0], "answer": o} for i, o in dgraph.items() if o != "(deg-graph-ok)"]
     # the hypotheses of the budget theorems (C20_mirror_validated_at_every_budget, C20_propagate_completes), evaluated on
     # the graph the implementation hands to propagation (budget 0/0: nothing has run yet)
     hyp = {"checked": 0, "clean": 0}
     hyp_bad = []
-    if ("0", "0") in budgets:
+    if True:
+        # with budget ("0", "0") listed: the graph as the implementation hands it to propagation; otherwise the graph of
+        # the first budget with every claim erased (what the mirror is run on)
         hl, hk = [], []
+        hb = ("0", "0") if ("0", "0") in budgets else budgets[0]
+        hyp["graph"] = "output at pass budget 0/0" if hb == ("0", "0") else "output at budget %s/%s with all claims erased (the input of the mirror)" % hb
         for i, (curve, src, _) in enumerate(progs):
-            o = impl[(i, "0", "0")]
+            o = impl[(i, hb[0], hb[1])]
             if o.startswith("(ok "):
-                hl.append("clean %s" % sexp.show(sexp.parse(o)[2]))
+                g = sexp.parse(o)[2]
+                hl.append("clean %s" % sexp.show(g if hb == ("0", "0") else sexp.strip_knowledge(g)))
                 hk.append(i)
         for i, o in zip(hk, common.run_lines(M, [], hl, shards=common.NPROC, timeout=1200) if hl else []):
             hyp["checked"] += 1
@@ -294,6 +392,9 @@ def run(ctx, proofs, budgets, check_vals=True, check_degs=True, n_quick=500, n_t
     exercised_v = exercised_d = 0
     evaluations = 0
     orng = random.Random(ctx.seed * 7919 + 13)
+    DEGSTATS.clear()
+    features = {}
+    featured = set()
     for (i, kv, kd), o in impl.items():
         evaluations += 1
         tag = o.split(" ", 1)[0].strip("()")
@@ -330,6 +431,12 @@ def run(ctx, proofs, budgets, check_vals=True, check_degs=True, n_quick=500, n_t
             if want_cc:
                 cc_seen["missing"] += len(want_cc)
                 cc_missing.append({"input": src, "curve": curve, "budget": [kv, kd], "model": want_cc[:3], "impl": real_cc[:3]})
+        fa = {}
+        features_of(x[1], fa, x[2])         # per program: a feature counts once, at whichever budget it shows
+        for f in fa:
+            if (i, f) not in featured:
+                featured.add((i, f))
+                features[f] = features.get(f, 0) + 1
         before = dict(claims)
         count_claims(x[2], claims)
         if claims["val"] - before["val"] > claims["literal"] - before["literal"] or claims["deg_le_quadratic"] > before["deg_le_quadratic"]:
@@ -345,7 +452,7 @@ def run(ctx, proofs, budgets, check_vals=True, check_degs=True, n_quick=500, n_t
         # at every pass budget 0..40 on the cases that disagree plus loop shapes whose claims need many passes
         escalated = escalate(ctx, H, orng, disagreements, unjustified, check_vals, check_degs)
         failing += escalated["failing"]
-    return {"hyp": hyp, "hyp_bad": hyp_bad, "escalated": None if escalated is None else {k: v for k, v in escalated.items() if k != "failing"}, "cc_seen": cc_seen, "cc_missing": cc_missing, "disagreements": disagreements, "failing": failing, "unjustified": unjustified, "validated": len(valid),
+    return {"dgraph": {"evaluated": len(dgraph), "unmet": len(dgraph_bad)}, "dgraph_bad": dgraph_bad, "features": features, "degstats": dict(DEGSTATS), "check_degs": check_degs, "hyp": hyp, "hyp_bad": hyp_bad, "escalated": None if escalated is None else {k: v for k, v in escalated.items() if k != "failing"}, "cc_seen": cc_seen, "cc_missing": cc_missing, "disagreements": disagreements, "failing": failing, "unjustified": unjustified, "validated": len(valid),
             "dvalidated": sum(1 for o in dvalid.values() if o == "(justified)"), "darrays": sum(1 for k, o in dvalid.items() if o == "(justified)" and any(t in impl[k] for t in ("(access ", "(update ", "(array "))), "status": status, "claims": claims,
             "nontrivial": len(nontrivial), "evaluations": evaluations, "programs": len(progs),
             "exercised_value_claims": exercised_v, "exercised_degree_claims": exercised_d,
@@ -374,21 +481,46 @@ def verdict(ctx, proofs, r, kinds, known_classes, extra_cov=None):
                 ctx.known_finding(known_ids[c], KF_TEXT[c] + " (e.g. " + " ".join(f["input"].split())[:160] + ")")
         else:
             real.append(f)
-    for f in real[:5]:
+    shown, seen_inputs = [], set()
+    for f in real:           # up to five failing inputs, different programs first
+        if f["input"] not in seen_inputs:
+            seen_inputs.add(f["input"])
+            shown.append(f)
+    shown = (shown + [f for f in real if f not in shown])[:5]
+    for f in shown:
         ctx.violation("%s; %s" % (f["impl"], f["spec"]), f)
     if not real:
+        # No wrong claim was found by the oracle (ordinary exploration and, if anything broke, the escalated search at
+        # every pass budget 0..40). Three different situations are told apart in the report:
+        #  (a) a verified validator rejects the implementation's output (the soundness theorem no longer applies to it);
+        #  (b) only the mirror differs: the validators still accept every output, so every claim is still covered by the
+        #      soundness theorems, and what changed is the order / amount of what is found per pass;
+        #  (c) hypotheses or proofs.
+        esc = r.get("escalated") or {}
+        searched = ("the interpreter / finite-difference oracle found no wrong claim, neither on the %d explored cases nor in the escalated search (%s programs x %s pass budgets)"
+                    % (r["evaluations"], esc.get("programs", 0), esc.get("budgets", 0)))
         if r["unjustified"]:
             u = r["unjustified"][0]
-            ctx.violation("the verified validator %s rejects the implementation's annotated graph (%d cases); no wrong claim was "
-                          "found by the interpreter" % (u.get("validator"), len(r["unjustified"])),
-                          {"broken": "validation of the implementation's output by " + str(u.get("validator")), "first": u}, no_input=True)
+            ctx.violation("VALIDATOR REJECTS: the verified validator %s rejects the implementation's annotated graph (%d cases; %d cases also differ from the mirror); %s. "
+                          "Note: DegJustify.djust_cfg demands the claimed range to EQUAL the range the tables give (deg_claim_is), so a sound but more "
+                          "conservative claim is rejected too" % (u.get("validator"), len(r["unjustified"]), len(r["disagreements"]), searched),
+                          {"broken": "validation of the implementation's output by " + str(u.get("validator")), "status": "validator-rejects, no wrong claim found", "first": u}, no_input=True)
         elif r["disagreements"]:
             d = r["disagreements"][0]
-            ctx.violation("correspondence Model.Propagate vs Cfg::propagate_values/propagate_degrees broken (%d cases)" % len(r["disagreements"]),
-                          {"broken": "correspondence propagate (Model.Propagate.propagate)", "first": d}, no_input=True)
+            ctx.violation("MIRROR DIFFERS, VALIDATORS STILL ACCEPT, NO WRONG CLAIM FOUND: Model.Propagate differs from Cfg::propagate_values/propagate_degrees on %d cases "
+                          "(per-budget equality is the correspondence the budget theorems are tied by), while Justify.vjust_cfg%s accept the implementation's output "
+                          "on all %d graphs; %s" % (len(r["disagreements"]), " and DegJustify.djust_cfg" if r.get("check_degs") else "", r["validated"], searched),
+                          {"broken": "correspondence propagate (Model.Propagate.propagate)", "status": "mirror differs, validator still accepts, no wrong claim found", "first": d}, no_input=True)
         elif r.get("hyp_bad"):
-            ctx.violation("a graph handed to propagation does not meet the hypotheses of the budget theorems (%s; %d cases)" % (r["hyp_bad"][0]["answer"], len(r["hyp_bad"])),
-                          {"broken": "hypotheses clean_cfg / ldefs_unique of C20_mirror_validated_at_every_budget and C20_propagate_completes", "first": r["hyp_bad"][0]}, no_input=True)
+            ctx.violation("a graph handed to propagation does not meet the hypotheses of the budget / degree theorems (%s; %d cases)" % (r["hyp_bad"][0]["answer"], len(r["hyp_bad"])),
+                          {"broken": "hypotheses clean_cfg / ldefs_unique / deg_wf of C20_mirror_validated_at_every_budget, C20_propagate_completes and the degree theorems", "first": r["hyp_bad"][0]}, no_input=True)
+        elif r.get("dgraph_bad"):
+            d = r["dgraph_bad"][0]
+            ctx.violation("a graph / immediate-dominator table produced by the implementation does not meet the hypotheses of the table-free degree theorems: %s (%d cases; "
+                          "`(graph-inconsistent)`: b_index is not the position or b_preds is not the inverse of b_succs or a block is unreachable - a matter of C12; "
+                          "`(idom-not-the-dominator-table)`: the table differs from the one Model.Dom computes - a matter of C15)" % (d["answer"], len(r["dgraph_bad"])),
+                          {"broken": "hypotheses DegGraph.graph_consistent / DegGraph.idom_is_dominator_table of C07_decides_is_dominance_control_dependence and "
+                                     "C07_validated_graph_degrees_true_table_free", "first": d}, no_input=True)
         elif r.get("cc_missing") and "finding" in kinds:
             d = r["cc_missing"][0]
             ctx.violation("correspondence Model.ConstCond vs constant_conditional.rs broken: %d reports the mirror expects are not produced" % len(r["cc_missing"]),
@@ -396,12 +528,27 @@ def verdict(ctx, proofs, r, kinds, known_classes, extra_cov=None):
         elif proofs["failures"]:
             ctx.violation("proof obligations no longer check: " + "; ".join(proofs["failures"])[:400],
                           {"broken": "props/%s.v" % ctx.prop, "failures": proofs["failures"]}, no_input=True)
+    # every program feature the rule text names must have been produced (and lifted) in this run
+    feats = r.get("features", {})
+    need = list(FEATURES)
+    missing = [f for f in need if not feats.get(f)]
+    ds = r.get("degstats", {})
+    if r.get("check_degs"):
+        for f in ("lines_with_signal_dependent_trip_counts", "claims_judged_on_signal_dependent_paths", "component_port_reads_as_indeterminates"):
+            if not ds.get(f):
+                missing.append(f)
+    if missing:
+        ctx.violation("degenerate exploration: features named in the rule text were never produced in this run: %s" % ", ".join(missing),
+                      {"broken": "generator coverage (lib/proggen.py)", "missing": missing, "counted": feats, "oracle": ds}, no_input=True)
     cov = {
         "evaluations": r["evaluations"],
         "distinct_nontrivial": r["nontrivial"],
         "programs": r["programs"],
-        "rule": "seeded generator lib/proggen.py (functions and templates, all operators, nested if/while/for, arrays, calls, signals; "
-                "30% hand-shaped programs aimed at joins, loops, boundary constants) x curves x pass budgets; a case is one (program, budget); "
+        "rule": "seeded generator lib/proggen.py (functions and templates, all operators, nested if/while/for, arrays, calls, signals, "
+                "components with port writes and (indexed) port reads, component arrays, dimensions that read variables, signals declared under "
+                "control flow, loops whose trip count depends on a signal; 30% hand-shaped programs aimed at joins, loops, boundary constants and at "
+                "each of these features) x curves x pass budgets; a case is one (program, budget); `features_produced` counts the definitions "
+                "that were lifted and carry each feature, and the run fails when one of them is zero; "
                 "distinct-nontrivial = distinct cases whose real output carries a value claim on a non-literal node or a degree bound <= quadratic",
         "samples": r["samples"],
         "exhaustive": False,
@@ -415,9 +562,20 @@ def verdict(ctx, proofs, r, kinds, known_classes, extra_cov=None):
         "graphs_with_array_forms_among_them": r["darrays"],
         "disagreements_model_vs_impl": len(r["disagreements"]),
         "input_origins": r["origins"],
+        "features_produced": {f: feats.get(f, 0) for f in FEATURES},
     }
+    if r.get("check_degs"):
+        cov["degree_oracle"] = dict(ds, rule="a line = five valuations base + t*direction; a claim `degree <= d` on a node is judged per iteration context (sequence of "
+                                    "loop headers entered so far, visit number) on the runs that reach it there, by divided differences of order d + 1; on lines whose trip "
+                                    "counts depend on the valuation a context reached by fewer than d + 2 runs is counted under discarded_signal_dependent_paths, not judged; "
+                                    "a port of a component is an indeterminate of its own (an unknown signal)")
     if r.get("hyp", {}).get("checked"):
+        # clean_cfg, ldefs_unique_cfg and deg_wf (the decidable hypotheses of the budget theorems and of the degree theorems)
         cov["graphs_meeting_the_hypotheses_of_the_budget_theorems"] = r["hyp"]
+        cov["graphs_meeting_clean_cfg_ldefs_unique_deg_wf"] = r["hyp"]
+    if r.get("check_degs"):
+        cov["dominator_table_hypotheses"] = dict(r.get("dgraph", {}), rule="DegGraph.deg_graph_ok = graph_consistent && idom_is_dominator_table, on the real SSA graph and "
+                                                                           "the real immediate-dominator table of every lifted definition")
     if r.get("escalated"):
         cov["escalated_search_after_broken_correspondence"] = r["escalated"]
     if "degree" in kinds:
@@ -456,4 +614,9 @@ def replay(ctx, rep):
     vals, names, sigs, params = valuations(rng, x[1], p, 40)
     bad, ex = irsem.check_values(x[1], x[2], p, vals)
     print("value claims checked:", ex, "wrong:", bad[:3])
-    return 1 if bad else 0
+
+    class _C:
+        tier = "thorough"
+    f_, _, ed = oracle_case(_C, random.Random(1), x, rep["input"], rep.get("curve", "BN254"), kv, kd, False, True)
+    print("degree claims checked:", ed, "wrong:", [(f["impl"], f["spec"][:200]) for f in f_[:3]])
+    return 1 if (bad or f_) else 0
